@@ -234,6 +234,40 @@ func negateOrd(o token.Token) token.Token {
 	return o
 }
 
+// Ordered calls f for every ordering literal of the path, normalised as if true (x op y) and also in flipped
+// orientation (y op' x); it returns true as soon as f does. Negated outcomes are rewritten (!(a > b) is a <= b).
+func (s *PathState) Ordered(f func(x ssa.Value, op token.Token, y ssa.Value) bool) bool {
+	for _, l := range s.Lits {
+		switch l.Op {
+		case token.LSS, token.LEQ, token.GTR, token.GEQ:
+		default:
+			continue
+		}
+		op := l.Op
+		if !l.Val {
+			op = negateOrd(op)
+		}
+		if f(l.X, op, l.Y) {
+			return true
+		}
+		var fl token.Token
+		switch op {
+		case token.LSS:
+			fl = token.GTR
+		case token.LEQ:
+			fl = token.GEQ
+		case token.GTR:
+			fl = token.LSS
+		case token.GEQ:
+			fl = token.LEQ
+		}
+		if f(l.Y, fl, l.X) {
+			return true
+		}
+	}
+	return false
+}
+
 // LitStrings renders the literals for reports.
 func (s *PathState) LitStrings() []string {
 	var out []string
@@ -609,11 +643,32 @@ func (q *PathQuery) assume(st *PathState, t *ssa.If, outcome bool) (*PathState, 
 		}
 		return v
 	}
-	if mx, my := mirror(lit.X), lit.Y; mx != lit.X || (lit.Y != nil && mirror(lit.Y) != lit.Y) {
+	if mx := mirror(lit.X); mx != lit.X || (lit.Y != nil && mirror(lit.Y) != lit.Y) {
+		my := lit.Y
 		if lit.Y != nil {
 			my = mirror(lit.Y)
 		}
 		ml := Lit{Op: lit.Op, X: mx, Y: my, Val: lit.Val, At: lit.At}
+		// a boolean helper that returns a comparison: normalise exactly like a branch condition
+		if ml.Op == token.ILLEGAL {
+			for {
+				u, ok := ml.X.(*ssa.UnOp)
+				if !ok || u.Op != token.NOT {
+					break
+				}
+				ml.X, ml.Val = u.X, !ml.Val
+			}
+			if bo, ok := ml.X.(*ssa.BinOp); ok {
+				switch bo.Op {
+				case token.EQL:
+					ml = Lit{Op: token.EQL, X: bo.X, Y: bo.Y, Val: ml.Val, At: lit.At}
+				case token.NEQ:
+					ml = Lit{Op: token.EQL, X: bo.X, Y: bo.Y, Val: !ml.Val, At: lit.At}
+				case token.LSS, token.LEQ, token.GTR, token.GEQ:
+					ml = Lit{Op: bo.Op, X: bo.X, Y: bo.Y, Val: ml.Val, At: lit.At}
+				}
+			}
+		}
 		switch ml.Op {
 		case token.ILLEGAL:
 			if b, ok := ConstBool(ml.X); ok && b != ml.Val {
